@@ -10,7 +10,9 @@
 """
 import ctypes
 import math
+import os
 import re
+import struct
 from fractions import Fraction
 
 from .. import dag
@@ -69,6 +71,28 @@ class Ptr(object):
 
 
 REAL = "REAL"     # pseudo object: absolute address in the process
+_REAL_FMT = {"double": ("<d", True), "float": ("<f", True), "i32": ("<i", False), "i64": ("<q", False), "i8": ("<b", False),
+             "i16": ("<h", False), "i64*": ("<Q", False)}
+
+
+class _IoVec(ctypes.Structure):
+    _fields_ = [("base", ctypes.c_void_p), ("len", ctypes.c_size_t)]
+
+
+_LIBC = ctypes.CDLL(None, use_errno=True)
+_LIBC.process_vm_readv.restype = ctypes.c_ssize_t
+_LIBC.process_vm_readv.argtypes = [ctypes.c_int, ctypes.POINTER(_IoVec), ctypes.c_ulong, ctypes.POINTER(_IoVec), ctypes.c_ulong, ctypes.c_ulong]
+
+
+def _safe_read(addr, n):
+    """read n bytes of this process at an absolute address without faulting: None when the range is not mapped"""
+    buf = ctypes.create_string_buffer(n)
+    loc = _IoVec(ctypes.cast(buf, ctypes.c_void_p), n)
+    rem = _IoVec(ctypes.c_void_p(addr), n)
+    got = _LIBC.process_vm_readv(os.getpid(), ctypes.byref(loc), 1, ctypes.byref(rem), 1, 0)
+    if got != n:
+        return None
+    return buf.raw
 
 
 def lift_f(x):
@@ -242,21 +266,19 @@ class Interp(object):
     def _real_load(self, addr, ty):
         if not self.hybrid:
             raise OutOfBounds("load from raw address")
-        if ty == "double":
-            return lift_f(ctypes.c_double.from_address(addr).value)
-        if ty == "float":
-            return lift_f(ctypes.c_float.from_address(addr).value)
-        if ty == "i32":
-            return ctypes.c_int32.from_address(addr).value
-        if ty == "i64":
-            return ctypes.c_int64.from_address(addr).value
-        if ty == "i8":
-            return ctypes.c_int8.from_address(addr).value
-        if ty == "i16":
-            return ctypes.c_int16.from_address(addr).value
+        fmt = _REAL_FMT.get("i64*" if ty.endswith("*") else ty)
+        if fmt is None:
+            raise Unsupported("real load of " + ty)
+        raw = _safe_read(addr, struct.calcsize(fmt[0]))
+        if raw is None:
+            # the page is not mapped: the real code would fault here too (reported like any other out-of-bounds access)
+            raise OutOfBounds("load of %s from unmapped process address 0x%x" % (ty, addr))
+        v = struct.unpack(fmt[0], raw)[0]
+        if fmt[1]:
+            return lift_f(v)
         if ty.endswith("*"):
-            return Ptr(REAL, ctypes.c_uint64.from_address(addr).value)
-        raise Unsupported("real load of " + ty)
+            return Ptr(REAL, v)
+        return v
 
     # ------------------------------------------------------------------ execution
     def call(self, name, args):
